@@ -233,6 +233,22 @@ impl<Fut: Future> Extend<Fut> for FuturesOrdered<Fut> {
     }
 }
 
+#[cfg(feature = "verif")]
+impl<Fut: Future> FuturesOrdered<Fut> {
+    /// Verification hook: set both position counters to `start`.
+    /// Only meaningful while the queue is empty.
+    pub fn verif_seed_positions(&mut self, start: usize) {
+        debug_assert!(self.is_empty());
+        self.next_incoming_index = Wrapping(start);
+        self.next_outgoing_index = Wrapping(start);
+    }
+
+    /// Verification hook: internal group layout `(cursor, [(capacity, len)])`.
+    pub fn verif_layout(&self) -> crate::verif::Layout {
+        self.in_progress_queue.verif_layout()
+    }
+}
+
 #[cfg(test)]
 mod tests {
     use crate::FuturesOrdered;
